@@ -209,7 +209,17 @@ func c20Hash(c *Ctx) {
 		case cd.Op == token.LSS && cd.Y != nil && strings.HasPrefix(ssax.Path(cd.Y), "len("):
 		case (cd.Op == token.NEQ || cd.Op == token.EQL) && cd.Y != nil && (ssax.IsNilConst(ssax.Resolve(cd.Y)) || ssax.IsNilConst(x)):
 		default:
-			odd = append(odd, ssax.Path(cd.X)+" at "+c.PosOf(cd.If))
+			// a test one of whose outcomes never reaches the digest (it fails the whole computation: a short-write or
+			// sanity check) cannot select a subset of what is hashed
+			aborts := false
+			for _, sb := range cd.If.Block().Succs {
+				if len(sb.Instrs) > 0 && sb.Instrs[0] != ssa.Instruction(sum.(ssa.Instruction)) && !ssax.ReachableFrom(fn, sb.Instrs[0], sum.(ssa.Instruction), nil, nil) {
+					aborts = true
+				}
+			}
+			if !aborts {
+				odd = append(odd, ssax.Path(cd.X)+" at "+c.PosOf(cd.If))
+			}
 		}
 	}
 	r.Check(len(odd) == 0, "C20/R1", "types.CalcStartReInitDKGMessageHash:no-filter", "no condition selects a subset of participants/messages (all elements are hashed)", c.Pos(fn.Pos()), "additional branch conditions: "+strings.Join(odd, "; "))
